@@ -14,7 +14,7 @@ VALUES_OK = ["1", '"s"', "[ 1 2 ]", "{ k = 1; }", "x", "true", "./p.nix", "f a",
 # a one-line set holding such a value no longer parses (finding C05-line-comment-value-in-one-line-set) and
 # would poison every later step of a random history
 VALUES_COMMENTED = ["1 # note", "/* c */ 2"]
-VALUES_BAD = ["", "1 +", "{", "}", "a = 1;", "[ 1", '"unterminated', "# only a comment", '"x\\"', '"\\"', '"a\\\\"b"', "1 2"]
+VALUES_BAD = ["", "1 +", "{", "}", "a = 1;", "[ 1", '"unterminated', "# only a comment", '"x\\"', '"\\"', '"a\\\\"b"']
 MALFORMED_PATHS = ["", "a..b", 'a."b', "@", ".a", "a.", 'a"b"', "@@", 'a."b\\', "foo-bar", "a b", "1a"]
 
 
@@ -233,6 +233,15 @@ SPECIAL = [
     # a quoted (non-identifier) segment followed by bare ones
     ("quoted-then-bare", "{\n  \"q-r\" = {\n    k = 1;\n    j = {\n      i = 2;\n    };\n  };\n  a = 1;\n}",
      [("rm", '"q-r".k'), ("set", '"q-r".k', "2"), ("set", '"q-r".zz', "3"), ("rm", '"q-r".j.i'), ("set", '"q-r".j.i', "4"), ("set", '"q-r".j.h', "5")]),
+    # three-segment dotted families sharing their first two segments (the usual NixOS configuration shape)
+    ("deep-family", "{\n  services.nginx.enable = true;\n  services.nginx.port = 80;\n  services.nginx.user = \"www\";\n  x = 1;\n}",
+     [("set", "services.nginx.port", "8080"), ("rm", "services.nginx.user"), ("set", "services.nginx.enable", "false"),
+      ("rm", "services.nginx.enable"), ("set", "services.nginx.group", '"g"'), ("rm", "services.nginx.port"), ("set", "services.nginx", "1"),
+      ("set", "services.nginx.port.x", "1")]),
+    # three and more parents to create; a name repeated along the path
+    ("deep-fresh-paths", "{\n  a.x = 0;\n  k = 1;\n}",
+     [("set", "p.q.r.s", "1"), ("set", "p.q.r.s.t", "1"), ("set", "a.b.b", "1"), ("set", "a.a.a", "1"), ("set", "a.b.c.b", "1"),
+      ("rm", "a.b.b"), ("rm", "a.x"), ("set", "k.k", "2")]),
     ("quoted-dot-existing", "{\n  \"a.b\" = {\n    d = 1;\n  };\n  a.b.d = 2;\n}",
      [("set", '"a.b".d', "7"), ("set", "a.b.d", "7"), ("rm", '"a.b".d'), ("rm", "a.b.d"), ("set", '"a.b".c', "2")]),
 ]
@@ -262,6 +271,10 @@ def enumerate_special():
                 for op2 in ops[:5]:
                     if op2 is not op and wname == "bare" and name != "inline-set-comment-value":
                         yield text, [op, op2], {"class": "editable", "wrapper": wname, "special": name}
+    for pth in ("a.b.b", "a.a.a", "a.b.c.b", "p.q.r.s", "p.q.r.s.t", "w.x.y.z.v"):
+        for base0 in ("{\n  a.x = 0;\n  k = 1;\n}\n", "{ }\n", "{\n  a = {\n    x = 0;\n  };\n}\n"):
+            yield base0, [("set", pth, "1"), ("rm", pth)], {"class": "editable", "wrapper": "bare", "special": "deep-set-rm"}
+            yield base0, [("set", pth, "1"), ("set", pth, "2")], {"class": "editable", "wrapper": "bare", "special": "deep-set-set"}
     for name, text in SPECIAL_DOCS:
         for op in [("set", "x", "7"), ("set", "zz", "7"), ("rm", "x"), ("set", "x.k", "7")]:
             yield text, [op], {"class": "editable", "wrapper": "ident-target", "special": name, "nomodel": True}
@@ -291,6 +304,8 @@ def enumerate_single_ops():
         # the last item carries an end-of-line comment and is followed by closing comments / a blank line
         "{\n  a = 1;\n  b = 2; # eol b\n\n  # closing note\n}",
         "{\n  a = 1;\n  inherit b; # eol\n  # closing\n}",
+        # the last item carries an end-of-line comment, nothing after it
+        "{\n  a = 1;\n  b = 2; # eol b\n}",
     ]
     layers_opts = ["", "let\n  x = 1;\nin\n", "let\n  x = 1;\n  y = x;\nin\nlet\n  x = 2;\n  v = \"0\";\nin\n",
                    "let\n  inherit (pkgs) lib;\n  x = 1;\nin\n", "let\n  inherit (pkgs) lib;\nin\n"]
